@@ -5,7 +5,7 @@ import common, asyncgen
 def concurrent_oracle(case, obs):
     """conclusion of c04_final / c04_block / c06_fifo_per_producer evaluated on a real concurrent run"""
     f = case.split()
-    pol, np_, ni, raw_every, dis_every = f[1].replace('+L', ''), int(f[2]), int(f[3]), int(f[5]), int(f[6])
+    pol, np_, ni, raw_every, dis_every = f[1].split('+')[0], int(f[2]), int(f[3]), int(f[5]), int(f[6])
     parts = obs.split(' | ')
     if len(parts) != 3:
         return 'bad-observation'
@@ -52,7 +52,7 @@ def concurrent_cases(rng, n):
         if pol == 'Block' and delay >= 200:
             ni = min(ni, 60)
         # '+L': the logger has its own layout and the reference a lower bound (the worker's other delivery path)
-        cases.append('%d %s %d %d %d %d %d' % (cap, pol + rng.choice(['', '', '+L']), np_, ni, delay, rng.choice([0, 2, 5]), rng.choice([0, 3, 7])))
+        cases.append('%d %s %d %d %d %d %d' % (cap, pol + rng.choice(['', '', '+L', '+U']), np_, ni, delay, rng.choice([0, 2, 5]), rng.choice([0, 3, 7])))
     return cases
 
 
@@ -91,7 +91,8 @@ def check(run):
         pol = rng.choice(asyncgen.POLICIES)
         occ = rng.choice([0, 1, cap - 1, cap, cap + 1, rng.randint(0, cap + 1)])
         ops = asyncgen.fill_prefix(cap, occ) + asyncgen.random_sequence(rng, cap, pol, rng.randint(1, 160 if quick else 260), occ=occ)
-        cases.append('%d %s %s' % (cap, pol + rng.choice(['', '', '+L']), ' '.join(ops)))
+        sfx = asyncgen.variant(rng)
+        cases.append('%d %s %s' % (cap, pol + sfx, ' '.join(asyncgen.adapt(ops, sfx))))
 
     def nontrivial(c, obs):
         last = obs.split(';')[-1].split('|')
